@@ -201,14 +201,24 @@ def resume(ctx, r):
 
 
 def gc_root_fields(ctx):
+    """Thread fields marked as roots when a cycle starts (start_mark_phase and the helpers it calls)."""
     items = ctx.file_items(VM)
-    f = q.find_fn(items, "start_mark_phase", impl_ty="VmGreenThread")
     out = set()
-    if f is None:
-        return out
-    for x in q.walk(f["body"]):
-        if x["k"] == "Field" and x["e"]["k"] == "Path" and x["e"]["p"] == "self":
-            out.add(x["f"])
+    seen = set()
+    work = ["start_mark_phase"]
+    while work:
+        name = work.pop()
+        if name in seen:
+            continue
+        seen.add(name)
+        f = q.find_fn(items, name, impl_ty="VmGreenThread")
+        if f is None:
+            continue
+        for x in q.walk(f["body"]):
+            if x["k"] == "Field" and x["e"]["k"] == "Path" and x["e"]["p"] == "self":
+                out.add(x["f"])
+            if x["k"] == "MethodCall" and q.show(x["recv"]) == "self" and len(seen) < 6:
+                work.append(x["m"])
     return out
 
 
